@@ -52,7 +52,7 @@ HvAll == {<<>>} \cup Hv1 \cup Hv2
 
 (* token times around Now0 = 4: none / valid / expired / not yet (+ boundaries when Full) *)
 TT == {<<-1, -1>>, <<2, 6>>, <<1, 3>>, <<5, 7>>}
-      \cup (IF Full THEN {<<-1, 3>>, <<5, -1>>, <<-1, 4>>, <<4, 6>>, <<-1, 6>>, <<2, -1>>} ELSE {})
+      \cup (IF Full THEN {<<-1, 3>>, <<5, -1>>, <<-1, 4>>, <<4, 6>>} ELSE {})
 AlgPairs == {<<a, h>> : a \in HS, h \in HS \cup {"none"}} \cup {<<"none", "none">>}
             \cup (IF Full THEN {<<"none", h>> : h \in HS} ELSE {})
 (* iat (absent / past / future) is crossed with every other class: time, key, algorithm, mutation *)
